@@ -689,6 +689,7 @@ static int c05_cmd (char *line)
       /* the side state the probe prints (heart beat of t) is the one prep() sets up */
       if (t)
         vh_apply_str (t, "prep", 0, 0, 0, 0);
+      command_giver = 0;	/* (prep may enable commands in t; backend() starts from clear_state() anyway) */
     }
   if (!strcmp (tok[0], "injectco") && n == 1)
     {
